@@ -66,6 +66,18 @@ pub struct Trap {
     pub c: u64,
 }
 
+/// Optional memory probe: when set, the word it points to is sampled at every trapped `cli`/`sti`
+/// (field `c` of the trap record), i.e. what memory looks like at the moment the flag changes.
+pub static PROBE: core::sync::atomic::AtomicPtr<u64> = core::sync::atomic::AtomicPtr::new(core::ptr::null_mut());
+fn probe_value() -> u64 {
+    let p = PROBE.load(Ordering::Relaxed);
+    if p.is_null() {
+        0
+    } else {
+        unsafe { core::ptr::read_volatile(p) }
+    }
+}
+
 pub const LOG_CAP: usize = 4096;
 pub const MSR_CAP: usize = 64;
 pub const INQ_CAP: usize = 64;
@@ -395,11 +407,13 @@ unsafe fn emulate(regs: &mut Regs) -> Option<Trap> {
         0xFA => {
             c.set_if(false);
             t.op = Op::Cli;
+            t.c = probe_value();
             i += 1;
         }
         0xFB => {
             c.set_if(true);
             t.op = Op::Sti;
+            t.c = probe_value();
             i += 1;
         }
         0xF4 => {
@@ -691,6 +705,13 @@ extern "C" {
 /// innermost active guard: pointer to its saved stack pointer (null = none)
 static mut CUR_GUARD: *mut u64 = core::ptr::null_mut();
 
+/// Trapped-and-emulated instructions since the innermost `guarded` call began, and the budget after
+/// which the call is abandoned: a wrapper that re-issues privileged instructions for ever (e.g. a
+/// chunking loop whose position stops advancing) becomes a reported failure instead of a hang.
+static mut TRAPS_IN_GUARD: u64 = 0;
+pub const TRAP_BUDGET: u64 = 3_000_000;
+const SIG_BUDGET: libc::c_int = -1;
+
 /// Run `f`; a Rust panic or an unexpected fault inside it is returned as `Err(message)`.
 pub fn guarded<T, F: FnOnce() -> T>(f: F) -> Result<T, String> {
     struct Slot<F, T> {
@@ -706,13 +727,22 @@ pub fn guarded<T, F: FnOnce() -> T>(f: F) -> Result<T, String> {
     let mut saved_rsp: u64 = 0;
     unsafe {
         let prev = *core::ptr::addr_of!(CUR_GUARD);
+        let prev_traps = *core::ptr::addr_of!(TRAPS_IN_GUARD);
+        *core::ptr::addr_of_mut!(TRAPS_IN_GUARD) = 0;
         *core::ptr::addr_of_mut!(CUR_GUARD) = &mut saved_rsp;
         let r = vharness_guarded_call(cb::<F, T>, &mut slot as *mut _ as *mut u8, &mut saved_rsp);
         *core::ptr::addr_of_mut!(CUR_GUARD) = prev;
+        *core::ptr::addr_of_mut!(TRAPS_IN_GUARD) = prev_traps;
         if r != 0 {
             let f = *core::ptr::addr_of!(LAST_FAULT);
             // the closure's frames were abandoned; do not run the closure's destructor twice
             core::mem::forget(slot);
+            if f.sig == SIG_BUDGET {
+                return Err(format!(
+                    "TRAP-BUDGET-EXCEEDED: more than {} privileged instructions were trapped in one call (the call does not terminate); last at rip={:#x} bytes={:02x?}",
+                    TRAP_BUDGET, f.rip, f.bytes
+                ));
+            }
             return Err(format!(
                 "UNEXPECTED-FAULT signal={} si_code={:#x} addr={:#x} rip={:#x} bytes={:02x?}",
                 f.sig, f.code, f.addr, f.rip, f.bytes
@@ -748,6 +778,19 @@ unsafe extern "C" fn on_signal(sig: libc::c_int, info: *mut libc::siginfo_t, ctx
         }
     } else if (sig == libc::SIGSEGV && code == 0x80) || sig == libc::SIGILL {
         if emulate(&mut regs).is_some() {
+            let n = *core::ptr::addr_of!(TRAPS_IN_GUARD) + 1;
+            *core::ptr::addr_of_mut!(TRAPS_IN_GUARD) = n;
+            let guard = *core::ptr::addr_of!(CUR_GUARD);
+            if n > TRAP_BUDGET && !guard.is_null() {
+                let mut bytes = [0u8; 8];
+                for k in 0..8 {
+                    bytes[k] = *((rip + k as u64) as *const u8);
+                }
+                *core::ptr::addr_of_mut!(LAST_FAULT) = FaultInfo { sig: SIG_BUDGET, code, addr, rip, bytes };
+                *core::ptr::addr_of_mut!(TRAPS_IN_GUARD) = 0;
+                regs.set(4, *guard);
+                regs.g[libc::REG_RIP as usize] = vharness_fault_resume as *const () as usize as i64;
+            }
             return;
         }
     }
